@@ -13,6 +13,8 @@ def moduleTheorems (env : Environment) (mod : Name) : Array Name := Id.run do
   for c in md.constNames do
     if c.isInternal then continue
     if !mod.isPrefixOf c then continue
+    -- equation lemmas the compiler generates for definitions in the module are not property theorems
+    if (match c with | .str _ s => s.startsWith "eq_" | _ => false) then continue
     match env.find? c with
     | some (.thmInfo _) => out := out.push c
     | _ => pure ()
